@@ -28,14 +28,14 @@ Clause(o) ==
              staged == [p \in 1..Len(o.raw.out) |->
                           Staged([j \in 1..Len(ref.post) |-> PostText(ref.post[j], ref, p)],
                                  \* (convert_rule() yields the queries of one rule: output finalizers do not run)
-                                 IF o.case.op = "backend_switch" THEN <<>> ELSE [j \in 1..Len(ref.fin) |-> FinText(ref.fin[j])], o.raw.out[p])]
+                                 IF o.case.op \in {"backend_switch", "backend_switch_back"} THEN <<>> ELSE [j \in 1..Len(ref.fin) |-> FinText(ref.fin[j])], o.raw.out[p])]
          IN
          IF \E p \in 1..Len(o.ref.out) : o.ref.out[p] # staged[p].qs THEN "StageOrder"
          ELSE IF o.got.out # o.ref.out THEN
               (CASE o.case.op = "sum" -> "AddIsConcat"
                  [] o.case.op = "resolve" -> "ResolveOrderFree"
                  [] o.case.op = "resolve_cwd" -> "ResolveNamesMeanRegisteredPipelines"
-                 [] o.case.op \in {"backend", "backend_default"} -> "BackendThenUserThenFormat"
+                 [] o.case.op \in {"backend", "backend_default", "backend_switch_back"} -> "BackendThenUserThenFormat"
                  [] OTHER -> "ReusedObjects")
          ELSE IF o.case.op \in {"sum", "resolve", "resolve_cwd"} /\ {<<o.vars[j][1], o.vars[j][2]>> : j \in 1..Len(o.vars)} # VarSet(ref.vars)
               THEN "LaterVarsOverride"
